@@ -47,7 +47,14 @@ static void slog(const char* ev, int obj, const char* why) {
     fprintf(logf, "{\"ev\":\"%s\",\"t\":%d,\"obj\":%d,\"why\":\"%s\",\"seq\":%ld}\n", ev, current, obj, why, ++seq);
 }
 
+/* "has started blocking": the first time a thread goes to sleep on a condition variable inside a wait call of the API is
+ * logged as an event of its own (a later notify on that address has to see this waiter) */
+static int in_wait_call[MAXT], block_logged[MAXT];
 void sh_api(const char* ev, const char* op, long long a, long long b, long long c, long long res) {
+    if (current >= 0 && current < MAXT) {
+        if (ev[0] == 'c') { in_wait_call[current] = op[0] == 'w' && op[1] == 'a'; block_logged[current] = 0; }
+        else if (ev[0] == 'r') in_wait_call[current] = 0;
+    }
     fprintf(logf, "{\"ev\":\"%s\",\"t\":%d,\"op\":\"%s\",\"a\":%lld,\"b\":%lld,\"c\":%lld,\"res\":%lld,\"seq\":%ld}\n",
             ev, current, op, a, b, c, res, ++seq);
 }
@@ -202,6 +209,7 @@ static int cond_block(sh_cond* c, sh_mutex* m, int timed) {
     pthread_mutex_lock(&big);
     me = current;
     slog("cwait", c->id, timed ? "timed" : "");
+    if (in_wait_call[me] && !block_logged[me]) { block_logged[me] = 1; fprintf(logf, "{\"ev\":\"blocked\",\"t\":%d,\"seq\":%ld}\n", me, ++seq); }
     if (m->owner != me) { misuse++; slog("badwait", m->id, ""); }
     m->owner = -1;
     lt[me].state = ST_BLOCK_COND; lt[me].cond = c; lt[me].mutex = m; lt[me].timed = timed; lt[me].signalled = 0;
